@@ -106,6 +106,14 @@ def orders_tie():
                     lambda: py2coq_orders.translate_all(REPO), "OrdersGen.v", "OrdersC20Proofs.v", "OrdersGen.")
 
 
+def dict_tie():
+    """pams/utils/json_extends.py (C18): the inheritance loop over insertion-ordered dicts"""
+    import py2coq_dict
+    src = os.path.join(REPO, "pams", "utils", "json_extends.py")
+    return _run_tie("translator:pams/utils/json_extends.py(C18 kernel)", src, lambda: py2coq_dict.translate(REPO), "DictGen.v",
+                    "DictC18Proofs.v", "DictGen.")
+
+
 def holdings_sweep_c05(seed=0, tier="quick", cov=None):
     """directed search used with the C05 tie: the real Simulator._update_agents_for_execution on small populations and fill lists
     (self-trades, repeated parties, several markets), against the property text: the buyer pays price x volume and receives volume
